@@ -174,8 +174,10 @@ def _ctparse(
     try:
         # =========== Label extraction ===========
         labels = _get_labels(txt)
-        # clear raw text of labels so what follows works properly
-        txt = re.sub('#[a-zA-Z0-9_-]+','', txt).strip()
+        # clear raw text of labels so what follows works properly; do not leave
+        # a run of blanks where a label stood: the text was normalised to single
+        # blanks, and covered characters (gaps included) enter the scores
+        txt = re.sub(' +', ' ', re.sub('#[a-zA-Z0-9_-]+','', txt)).strip()
 
         logger.debug("=" * 80)
         logger.debug("-> matching regular expressions")
